@@ -142,6 +142,38 @@ def run(ctx):
         # nondeterminism in the TBS call graph
         seen, callees = callgraph(crate, [CERT_FN, CSR_FN, CRL_FN, "certificate::CertificateParams::signed_by", "certificate::CertificateParams::self_signed", "csr::CertificateSigningRequestParams::signed_by", "crl::CertificateRevocationListParams::signed_by"], {"key_pair::KeyPair::sign"})
         bad = {c: sorted(v) for c, v in callees.items() if any(x in c for x in NONDET) or HASH_ENUM.search(c)}
+        # a value whose type (transitively, through local types) holds a std hash map / set is never *formatted* on the
+        # TBS call graph: its Debug / Display output enumerates the map in hash order
+        import re as _re
+        def _holds_hash(ty, depth=0, seen_=None):
+            seen_ = seen_ if seen_ is not None else set()
+            if _re.search(r"\bHash(Map|Set)<", ty or ""):
+                return True
+            if depth > 6:
+                return False
+            for nm in set(_re.findall(r"[A-Za-z_][\w:]*", ty or "")):
+                a_ = crate.adts.get(nm)
+                if a_ is None or nm in seen_:
+                    continue
+                seen_.add(nm)
+                for v_ in a_.get("variants") or []:
+                    for f_ in v_.get("fields") or []:
+                        if _holds_hash(f_.get("ty") or "", depth + 1, seen_):
+                            return True
+            return False
+        fmt_bad = []
+        n_fmt = 0
+        for fn_ in sorted(seen):
+            b_ = crate.bodies.get(fn_)
+            if not b_ or "hir" not in b_ or fn_ in crate.derived_fns:
+                continue
+            for nd in common.hir_walk(b_["hir"]):
+                if nd.get("k") in ("Call", "MethodCall") and (str(nd.get("callee") or "").startswith(("core::fmt::rt::Argument::new_", "std::fmt::rt::Argument::new_")) or str(nd.get("callee") or "").endswith(("ToString::to_string", "fmt::Debug::fmt", "fmt::Display::fmt"))):
+                    n_fmt += 1
+                    tys = [t_ for t_ in (nd.get("targs") or []) if not t_.startswith("'")] or [((nd.get("recv") or (nd.get("args") or [{}])[0]) or {}).get("ty") or ""]
+                    if any(_holds_hash(t_) for t_ in tys):
+                        fmt_bad.append("%s formats %s" % (fn_, tys))
+        rep.ob("C15.nondet", "%s|no-hash-ordered-rendering" % cfg, not fmt_bad, "nothing that holds a std HashMap / HashSet is formatted (Debug / Display / to_string) on the to-be-signed call graph", found=fmt_bad or "%d formatting calls examined" % n_fmt)
         rep.ob("C15.nondet", "%s|tbs-call-graph" % cfg, not bad, "no nondeterministic source (hash-order iteration, clock, randomness, environment, thread identity) is reachable from the to-be-signed writers", found=bad)
         rep.floor("C15.nondet", "functions in the TBS call graph (%s)" % cfg, len(seen), 25)
         if cfg != "K3":
